@@ -23,6 +23,10 @@ CHECKS = {
    technique="reference-model monitor: independent scoping model over a generated workflow model vs. the real linter's undefined-property diagnostics",
    text="A seeded generator builds workflows (jobs with needs DAG and outputs, steps with ids, matrices with include/exclude/nesting and expression-valued sections, workflow_call/dispatch inputs, secrets, outputs) and emits one reference per scalar at 47 kinds of position; an independent scope model decides in-scope / out-of-scope / never-reported per reference and is compared with the linter. Floors require every reference class in both directions.",
    note="Compared per scalar (reported or not); classes where the statement is silent are excluded and listed in the evidence assumptions."),
+ "C06": dict(level="exploration", design="§4 C06",
+   technique="metamorphic monitor: accepted-under-G implies accepted under every single loosening G' (any / open object), at the ExprSemanticsChecker API and through the real linter",
+   text="API level: all 475 types of nesting depth <=2 over {any,null,number,bool,string} at matrix.v and as whole steps/secrets contexts x 132 expression templates (exhaustive grid), plus generated environments and type-directed expressions (>=90% accepted under G); every non-any type occurrence is replaced by any and every closed object opened, one at a time, and the expression must stay accepted; fromJSON literals are replaced by an any-typed call. Linter level: clean generated workflows are re-linted under 14 kinds of definition replacement (matrix rows/values/include by fromJSON expressions, untyped inputs, unknown actions, unresolvable reusable workflows) and must stay clean at every use site.",
+   note="Literal matrix values of one key are shape-consistent (conflicting literals merge to any, which would make a replacement a tightening); merges whose result depends on map order are excluded."),
  "C07": dict(level="exploration", design="§4 C07",
    technique="position monitor: global bounds oracle + absolute position oracle from a position-recording emitter + metamorphic shift oracle (k columns / k lines) on the real linter",
    text="Bounds: every diagnostic of the corpus, of 17 kinds of byte/line mutations of it and of all generated workflows has 1<=line<=lines and column>=1 (YAML-level errors excepted). Absolute: 5000 (quick) / 200000 (thorough) generated cases, each a clean workflow plus one diagnosed construct (55 expression sites in three modes, 44 key sites, 36 value sites, 15 glob character classes) under random layouts (indentation, nesting, flow/block, plain/single/double quoted, earlier placeholders, preceding text); the reported line:column must equal the recorded position. Shift: each case is re-emitted with k extra columns / lines / preceding text / an earlier placeholder and the whole diagnostic multiset must move by exactly k.",
